@@ -283,6 +283,11 @@ func mutateForPrestate(r *rng, cur, orig *Node, digests map[string]string, kinds
 		return nFile(orig.Data)
 	case 4:
 		kinds["different-file"]++
+		if r.chance(1, 2) {
+			// the committed bytes followed by more (rows appended after a copy checkout)
+			kinds["extended-file"]++
+			return nFile(append(append([]byte{}, orig.Data...), []byte("\nappended later")...))
+		}
 		return nFile(append([]byte("different:"), orig.Data...))
 	case 5:
 		var others []string
@@ -609,6 +614,12 @@ func applyEdit(r *rng, p *Project, c *committed, abs string) string {
 			return ""
 		}
 		d := dirs[r.intn(len(dirs))]
+		for _, x := range dirs {
+			if len(x.n.Ents) == 0 && r.chance(2, 3) {
+				d = x // a directory that was EMPTY when it was committed
+				kind = "add-file-to-empty-dir"
+			}
+		}
 		must(os.WriteFile(filepath.Join(abs, d.rel, "zz_new_file"), []byte("new"), 0o644))
 	case "add-dir":
 		if cur.Kind != "d" {
